@@ -181,3 +181,67 @@ pub fn drive_range(w: u32, s: u32, precs: &[usize], seed: u64, n_events: usize, 
     rep.checks += ev as u64;
     rep
 }
+
+/// Chain coder driver: random data, random decode histories with precision changes, the three restore modes (checked
+/// here, format-agnostic) and an exact event trace for TraceChain.tla (validated where the heads fit TLC's integers).
+pub fn drive_chain(w: u32, s: u32, precs: &[usize], seed: u64, n_rounds: usize, out: &str) -> Report {
+    use crate::chain::*;
+    let mut rep = Report::default();
+    let mut rng = Xoshiro256StarStar::seed_from_u64(seed ^ 0xc4a1 ^ ((w as u64) << 32) ^ ((s as u64) << 40));
+    let mut f = std::io::BufWriter::new(std::fs::File::create(format!("{}.exact.ndjson", out)).unwrap());
+    let wmask: u128 = if w >= 128 { u128::MAX } else { (1u128 << w) - 1 };
+    let tail3 = |v: &[u128]| vals(&v[v.len().saturating_sub(3)..]);
+    let snap = |c: &Box<dyn ChainDyn>| { let (hc, hr) = c.heads(); let (comp, rem) = c.clone_box().into_remainders();
+        // into_remainders flushes the heads onto `rem`: remove what it appended (the spec's IntoRemainders does the same)
+        let mut extra = 1usize; let mut h = hr; while h != 0 { extra += 1; h >>= w; }
+        let rem_only = &rem[..rem.len() - extra];
+        json!({"hc": to_val(hc), "hr": to_val(hr), "comp_len": comp.len(), "comp_tail": tail3(&comp), "rem_len": rem_only.len(), "rem_tail": tail3(rem_only)}) };
+    let ctxv = |seed: u64| json!({"k": "drive_chain", "w": w, "s": s, "seed": seed});
+    for round in 0..n_rounds {
+        rep.cases += 1;
+        let binary = rng.gen_bool(0.5);
+        let len = rng.gen_range(0..12usize);
+        let mut data: Vec<u128> = (0..len).map(|_| match rng.gen_range(0..6) { 0 => 0, 1 => wmask, 2 => 1, _ => rng.gen::<u128>() & wmask }).collect();
+        if !binary { if let Some(l) = data.last_mut() { if *l == 0 && rng.gen_bool(0.8) { *l = 1 + (rng.gen::<u128>() & wmask).min(wmask - 1); } } }
+        let mut p = precs[rng.gen_range(0..precs.len())];
+        let mut cd = match chain_new(w, s, p, if binary { 0 } else { 1 }, &data) {
+            Ok(c) => c,
+            Err(()) => { writeln!(f, "{}", json!({"ev": "refused", "binary": binary, "words": vals(&data), "P": p})).unwrap(); rep.class("refused"); continue; }
+        };
+        let mut o = snap(&cd); o["ev"] = json!(if binary { "from_binary" } else { "from_compressed" }); o["words"] = vals(&data); o["P"] = json!(p); writeln!(f, "{}", o).unwrap();
+        let mut hist: Vec<(usize, Vec<u64>, usize, usize)> = vec![];    // (P, cdf, sym) or precision change (oldP, [], usize::MAX, newP)
+        for _ in 0..rng.gen_range(0..25usize) {
+            if precs.len() > 1 && rng.gen_range(0..6) == 0 {
+                let np = precs[rng.gen_range(0..precs.len())]; if np == p { continue; }
+                match cd.clone_box().change(np) { Ok(c) => { cd = c; let mut o = snap(&cd); o["ev"] = json!("change"); o["P"] = json!(p); o["NP"] = json!(np); writeln!(f, "{}", o).unwrap(); hist.push((p, vec![], usize::MAX, np)); p = np; rep.class("precision_change"); }
+                    Err(_) => { writeln!(f, "{}", json!({"ev": "change_failed", "P": p, "NP": np})).unwrap(); rep.class("precision_change_failed"); } }
+                continue;
+            }
+            let cdf = random_cdf(&mut rng, p);
+            match cd.dec(&cdf) {
+                Ok(sym) => { let mut o = snap(&cd); o["ev"] = json!("dec"); o["P"] = json!(p); o["c"] = json!(cdf[sym]); o["p"] = json!(cdf[sym + 1] - cdf[sym]); writeln!(f, "{}", o).unwrap(); hist.push((p, cdf, sym, 0)); rep.class("dec"); }
+                Err(e) => { if e != "OutOfCompressedData" { rep.mismatch(&ctxv(seed), format!("round {}: decode reported {}", round, e)); } let mut o = snap(&cd); o["ev"] = json!("dec_out_of_data"); o["P"] = json!(p); writeln!(f, "{}", o).unwrap(); rep.class("out_of_data"); break; }
+            }
+        }
+        // restore in one of the three documented ways
+        let mode = rng.gen_range(0..3);
+        let (mut c2, keep): (Box<dyn ChainDyn>, Vec<u128>) = match mode {
+            0 => (cd.clone_box(), vec![]),
+            m => { let (pre, suf) = cd.clone_box().into_remainders(); let concat = m == 2; let mut input = if concat { pre.clone() } else { vec![] }; input.extend(suf.iter().cloned());
+                match chain_new(w, s, p, 2, &input) { Ok(c) => { let mut o = snap(&c); o["ev"] = json!("from_remainders"); o["concat"] = json!(concat); o["P"] = json!(p); writeln!(f, "{}", o).unwrap(); (c, if concat { vec![] } else { pre }) }
+                    Err(()) => { rep.mismatch(&ctxv(seed), format!("round {}: from_remainders refused what into_remainders returned", round)); continue; } } }
+        };
+        let mut failed = false;
+        for h in hist.iter().rev() {
+            if h.2 == usize::MAX { match c2.clone_box().change(h.0) { Ok(c) => { c2 = c; let mut o = snap(&c2); o["ev"] = json!("change"); o["P"] = json!(h.3); o["NP"] = json!(h.0); writeln!(f, "{}", o).unwrap(); } Err(e) => { rep.mismatch(&ctxv(seed), format!("round {}: undoing a precision change failed: {}", round, e)); failed = true; break; } } continue; }
+            match c2.enc(&h.1, h.2) { Ok(()) => { let mut o = snap(&c2); o["ev"] = json!("enc"); o["P"] = json!(h.0); o["c"] = json!(h.1[h.2]); o["p"] = json!(h.1[h.2 + 1] - h.1[h.2]); writeln!(f, "{}", o).unwrap(); }
+                Err(e) => { rep.mismatch(&ctxv(seed), format!("round {}: re-encoding failed: {}", round, e)); failed = true; break; } }
+        }
+        if failed { continue; }
+        rep.checks += 1;
+        let fin = if binary { c2.into_binary() } else { c2.into_compressed() };
+        match fin { Ok((a, b)) => { let mut r = keep.clone(); r.extend(a); r.extend(b); if r != data { rep.mismatch(&ctxv(seed), format!("round {} (mode {}, binary {}): restored {:?}, original {:?}", round, mode, binary, r, data)); } rep.class(["restore_same", "restore_suffix", "restore_concat"][mode]); }
+            Err(()) => rep.mismatch(&ctxv(seed), format!("round {}: export refused after re-encoding everything", round)) }
+    }
+    rep
+}
